@@ -143,6 +143,43 @@ pub fn eval_case(n: usize, what: &'static str) -> Case {
     }
 }
 
+/// A wide dense layer: `Tensor::dot` and friends are sequential; were a long row summed in parallel, the split tree of the
+/// float sum would depend on the thread count. 512 inputs, the reversed schedule (right-to-left reduction, 4 threads).
+pub fn wide_case(width: usize) -> Case {
+    Case {
+        id: format!("C05/wide-dense/{}", width),
+        property: "C05",
+        family: "Network::{predict_batch,validate,learn} (wide rows)",
+        class: "wide".into(),
+        no_ties: false,
+        max_paths: 64,
+        run: Box::new(move |ctx| {
+            let input = Shape::Single(width);
+            let layers = vec![L::Dense(2, Act::Linear, true), L::Dense(1, Act::Linear, false)];
+            let xs: Vec<Tensor> = (0..2).map(|i| input_tensor(ctx, &input, &format!("x{}", i))).collect();
+            let ts: Vec<Tensor> = (0..2).map(|i| t1(&v1(ctx, &format!("t{}", i), 1))).collect();
+            let mut run = |ctx: &mut Ctx, threads: usize| -> V1 {
+                let mut net = mknet(ctx, &input, &layers);
+                let (xr, tr): (Vec<&Tensor>, Vec<&Tensor>) = (xs.iter().collect(), ts.iter().collect());
+                let mut out: V1 = ctx.with_threads(threads, || net.predict_batch(&xr)).iter().flat_map(|t| elems(t)).collect();
+                let (tl, _, _) = ctx.with_threads(threads, || net.learn(&xr, &tr, None, 2, 1, None));
+                out.extend(tl);
+                out.extend(all_params(&net).into_iter().take(4));
+                out
+            };
+            ctx.schedule("sequential");
+            let a = run(ctx, 1);
+            ctx.schedule("reversed");
+            let b = run(ctx, 8);
+            ctx.schedule("sequential");
+            ctx.fact("count", a.len() == b.len(), format!("{} {}", a.len(), b.len()));
+            for i in 0..a.len().min(b.len()) {
+                ctx.claim(&format!("wide[{}]", i), Th::Fp, B::Ident(a[i], b[i]));
+            }
+        }),
+    }
+}
+
 /// Negative control: a float sum reduced in schedule order is NOT schedule independent — the model must expose it.
 pub fn control_case() -> Case {
     Case {
@@ -193,6 +230,10 @@ pub fn cases(tier: Tier, _seed: u64) -> Vec<Case> {
     for n in if full { vec![1usize, 64, 65, 129, 130] } else { vec![65usize, 129] } {
         out.push(eval_case(n, "predict_batch"));
         out.push(eval_case(n, "validate"));
+    }
+    out.push(wide_case(512));
+    if full {
+        out.push(wide_case(1024));
     }
     out.push(control_case());
     out
